@@ -41,6 +41,7 @@ func init() {
 			{ID: "C13-R17", Title: "the base of a rooted filesystem is made absolute", Floor: 1, Run: theBaseDoesNotMoveWithTheWorkingDirectory},
 			{ID: "C13-R18", Title: "a path under no mount point is refused there and then", Floor: 10, Run: pathsUnderNoMountAreRefused},
 			{ID: "C13-R19", Title: "the mount lookup is given the path as it came", Floor: 10, Run: theMountLookupIsGivenThePathAsItCame},
+			{ID: "C13-R20", Title: "paths reach the OS as the script gave them", Floor: 10, Run: pathsReachTheOSAsTheScriptGaveThem},
 		},
 	})
 }
@@ -384,7 +385,29 @@ func c13lookupBody(c *core.Ctx, sf *ssa.Function, params []*ssa.Parameter) {
 			}
 			n++
 			okP := core.DependsOn(subj, isParam)
-			okC := core.DependsOn(subj, isClean)
+			okC := core.DependsOn(subj, isClean) || core.DependsOn(subj, func(w ssa.Value) bool {
+				// made by a helper of the package whose every result has passed Clean/Join
+				call, ok := w.(*ssa.Call)
+				if !ok {
+					return false
+				}
+				cal := call.Call.StaticCallee()
+				if cal == nil || cal.Blocks == nil || cal.Pkg != sf.Pkg || cal == sf || cal.Signature.Results().Len() != 1 {
+					return false
+				}
+				any := false
+				for _, cb := range cal.Blocks {
+					for _, cin := range cb.Instrs {
+						if cr, ok := cin.(*ssa.Return); ok && len(cr.Results) == 1 {
+							any = true
+							if !core.DependsOn(cr.Results[0], isClean) {
+								return false
+							}
+						}
+					}
+				}
+				return any
+			})
 			c.Check(okP && okC, fk+"|match-subject#"+itoa(n), p.Pos(in.Pos()),
 				"the string matched against mount points must be the cleaned absolute form of the path parameter"+ifs(!okP, " (does not depend on the parameter)")+ifs(!okC, " (did not pass filepath.Clean/Join)"))
 		}
